@@ -194,7 +194,14 @@ PARAMS = [-6, -4, -1, 0, 1, 3, 4, 9]
 
 
 def jconds():
+    key, key2, one, zero = 'list', 'nested', 1, 0          # external parameters inside JSON paths
     return [
+        ("param key, two paths differing in a constant index", lambda d: d.data[key][0] == 1 and d.data[key][1] == 2, lambda v: v[key][0] == 1 and v[key][1] == 2),
+        ("param key, two paths differing in a constant key", lambda d: d.data[key2]['k'] == 'v' and d.data[key2]['n'] == 0, lambda v: v[key2]['k'] == 'v' and v[key2]['n'] == 0),
+        ("param index", lambda d: d.data['list'][one] == 2, lambda v: v['list'][one] == 2),
+        ("two param indexes", lambda d: d.data['list'][zero] == 1 and d.data['list'][one] == 2, lambda v: v['list'][zero] == 1 and v['list'][one] == 2),
+        ("param key in data", lambda d: key in d.data, lambda v: _container(v) and key in v),
+        ("param key truthy", lambda d: d.data[key2], lambda v: bool(v[key2])),
         ("a == 1", lambda d: d.data['a'] == 1, lambda v: v['a'] == 1),
         ("a == '1'", lambda d: d.data['a'] == '1', lambda v: v['a'] == '1'),
         ("a == 0", lambda d: d.data['a'] == 0, lambda v: v['a'] == 0),
@@ -454,5 +461,5 @@ CONTRACTS = [
                                  'pony.orm.dbproviders.sqlite:_traverse', 'pony.orm.dbproviders.sqlite:py_array_index', 'pony.orm.dbproviders.sqlite:py_array_slice',
                                  'pony.orm.dbproviders.sqlite:py_array_contains', 'pony.orm.dbproviders.sqlite:py_array_subset'],
              _dj_configs, _dj_case, [('same_result_as_the_python_expression_on_the_decoded_value', _dj_spec)], level='bounded',
-             bound='12 JSON documents, 4 array triples, 40 JSON conditions, 9 JSON projections, 20 array conditions, 17 array projections, 8 parameter values; SQLite with JSON1 and with the Python fallback'),
+             bound='12 JSON documents, 4 array triples, 47 JSON conditions, 9 JSON projections, 20 array conditions, 17 array projections, 8 parameter values; SQLite with JSON1 and with the Python fallback'),
 ]
